@@ -421,7 +421,8 @@ func (rt *runtime) convertCallParameter(v Value, t reflect.Type) (reflect.Value,
 		}
 	case reflect.Slice:
 		if o := v.object(); o != nil {
-			if lv := o.get(propertyLength); lv.IsNumber() {
+			isList := o.class == classArrayName || o.class == classGoArrayName || o.class == classGoSliceName
+			if lv := o.get(propertyLength); isList && lv.IsNumber() {
 				l := lv.number().int64
 
 				s := reflect.MakeSlice(t, int(l), int(l))
